@@ -235,7 +235,7 @@ func C05(r *eng.Run) {
 	r.Rule = "explicit-state conformance of the parser with a reference automaton for the documented syntax: every string up to length N over a 15-symbol alphabet {0,1,5,9,.,_,e,E,+,-,n,a,i,f,x} through Parse, UnmarshalText and MustParse " +
 		"(accept/reject must equal automaton membership, accepted values must equal the exact literal rounded by DefaultRoundingMode, errors must match strconv.ErrSyntax/ErrRange); " +
 		"plus structured literals: digit strings of every length 1..45 and {100,1000,32766..32769,65535..65537,70000} in 7 patterns, 34/35-digit tie patterns, every sticky-tail pattern after 34/35-digit prefixes, leading-digit prefixes at the accumulator-switch lengths, '_' inserted at every position of 1..45-digit literals, every dot position (sampled positions for long ones), leading-zero runs, " +
-		"exponent fields across every threshold, 3 signs, 6 DefaultRoundingMode values; special names in every letter case; fmt.Sscan/Sscanf on valid numerals. " +
+		"exponent fields across every threshold, 3 signs, 6 DefaultRoundingMode values; special names in every letter case; every byte of short well-formed literals replaced by each of the 256 byte values and every single-bit flip of long ones; literals of up to 400 000 (thorough: 1.2 million) digits whose exponent field is compensated by the position of the point; fmt.Sscan/Sscanf on valid numerals. " +
 		"states = distinct (automaton state, parser verdict) pairs observed, transitions = strings judged; non-trivial = ill-formed, rounded, over/underflowing or long literals."
 	r.Assumptions = []string{"binary codec is the identity on bits (checked at start; decided by C12)",
 		"strings whose status the documentation does not pin (signed NaN, '_' inside exponent digits) are not judged", "the reference literal evaluator is bound to the repository's vectors by C01/C02 (it reads every operand and expected value there)"}
@@ -306,6 +306,73 @@ func C05(r *eng.Run) {
 		}
 	})
 	r.Phase("special names", t0, nil)
+
+	// byte neighbourhood of well-formed literals: every byte of every base literal replaced by each of the
+	// 256 byte values (short bases) or by its 8 single-bit flips (long bases). A classification by mask or
+	// range test that is off in one bit (bit 7, bit 5, '/' and ':' next to the digits) shows here.
+	t0 = time.Now()
+	var nbBases []string
+	for _, name := range []string{"nan", "NaN", "NAN", "inf", "Inf", "INF", "iNf", "infinity", "Infinity", "INFINITY", "inFiniTy"} {
+		for _, sg := range []string{"", "+", "-"} {
+			nbBases = append(nbBases, sg+name)
+		}
+	}
+	nbBases = append(nbBases, "0", "7", "10", "-1.5", "+2e3", "1e-2", "1_0", "0.5E+10", "9.9e9")
+	longBases := []string{"12345678901234567890123.4567e-100", "-1_000_000.000_001E+6000", "98765432109876543210987654321098765432109876543210", "0.000000000000000000000000000000000000000000001234567890123456789012345678901234567890e-6100", "+1234567890_1234567890_1234567890_1234567890.5e1"}
+	r.Par(len(nbBases)+len(longBases), func(w *eng.W, i int) {
+		if i < len(nbBases) {
+			base := nbBases[i]
+			for p := 0; p < len(base); p++ {
+				for c := 0; c < 256; c++ {
+					b := []byte(base)
+					b[p] = byte(c)
+					checkParse(w, string(b), 0, "")
+				}
+			}
+		} else {
+			base := longBases[i-len(nbBases)]
+			for p := 0; p < len(base); p++ {
+				for bit := 0; bit < 8; bit++ {
+					b := []byte(base)
+					b[p] ^= 1 << bit
+					checkParse(w, string(b), 0, "")
+				}
+			}
+		}
+		w.Cell("Parse/byte-neighbourhood", true)
+	})
+	r.Bounds["byte_neighbourhood_bases"] = len(nbBases) + len(longBases)
+	r.Phase("byte neighbourhood of well-formed literals", t0, nil)
+
+	// long literals whose written exponent is compensated by the position of the decimal point: the value is
+	// moderate although the exponent field alone is far outside every range (up to +-1.2 million), so the
+	// exponent accumulator, its saturation and the fraction counter must all stay exact together
+	t0 = time.Now()
+	compN := []int{50, 1000, 6200, 32767, 32768, 40000, 65536, 99999, 100000, 327679, 327680, 400000}
+	if r.Thorough() {
+		compN = append(compN, 1000000, 1200000)
+	}
+	compS := []int{0, 7, 40, 6111, 6145, 6150, -6170, -6178, -6250}
+	r.Par(len(compN)*len(compS), func(w *eng.W, k int) {
+		N, s := compN[k/len(compS)], compS[k%len(compS)]
+		for _, sg := range []string{"", "-"} {
+			for _, kind := range []string{"G", "H"} {
+				// 0.<N zeros><5 digits> e+(N+s)
+				recipe := fmt.Sprintf("%s|%d|%s|%d|%d|e%d", sg, N+1, kind, 5, 1, N+s)
+				checkParse(w, genLit(recipe), 0, recipe)
+				recipe = fmt.Sprintf("%s|%d|%s|%d|%d|E+%d", sg, N+1, kind, 36, 1, N+s)
+				checkParse(w, genLit(recipe), 0, recipe)
+			}
+			// 1<N zeros> e-(N+s), and with a trailing fraction
+			recipe := fmt.Sprintf("%s|0|P|%d|-1|e%d", sg, N+1, -(N + s))
+			checkParse(w, genLit(recipe), 0, recipe)
+			recipe = fmt.Sprintf("%s|0|P1|%d|%d|e%d", sg, N+3, N+1, -(N + s))
+			checkParse(w, genLit(recipe), 0, recipe)
+		}
+		w.Cell("Parse/compensated-exponent", true)
+	})
+	r.Bounds["compensated_exponent_lengths"] = len(compN)
+	r.Phase("compensated exponents", t0, nil)
 
 	// A1: structured literals under every DefaultRoundingMode
 	t0 = time.Now()
@@ -532,6 +599,6 @@ func C05(r *eng.Run) {
 	})
 	r.Traces.Add(r.Evals())
 	r.Phase("Scan", t0, nil)
-	r.Require("Parse/ill-formed", "Parse/value", "Parse/overflow", "Parse/underflow-to-zero", "Parse/long-literal", "Parse/special-name", "Scan/numeral", "Scan/special")
+	r.Require("Parse/ill-formed", "Parse/value", "Parse/overflow", "Parse/underflow-to-zero", "Parse/long-literal", "Parse/special-name", "Scan/numeral", "Scan/special", "Parse/byte-neighbourhood", "Parse/compensated-exponent")
 	_ = big.NewInt
 }
